@@ -1,30 +1,63 @@
 import JL.Generated.Fns
 import JL.Lemmas.TieB
+import JL.Lemmas.TieTactics
 /-! tie: `number_eq`, as translated from the crate's current source, is the model's function - for every input -/
 namespace JL.Tie
 open JL JL.Lemmas.TieB
+set_option linter.unusedSimpArgs false  -- which of the listed facts are used depends on how the source is spelled
 
-/-- the nested helper `as_int` -/
-theorem number_eq_as_int (n : Num) : Gen.number_eq.as_int n = ArrOp.asInt n := by
-  unfold Gen.number_eq.as_int ArrOp.asInt
-  cases n with
-  | pos n => simp [rs, Num.asU64]
-  | neg m => simp [rs, Num.asU64, Num.asI64]
-  | flt f =>
-    simp only [lit1e30, fract_eq_zero]
-    generalize h128 : Rs.to_i128 = g
-    simp only [rs, Num.asU64, Num.asI64, Num.toF64]
-    rcases Bool.eq_false_or_eq_true (f.fractIsZero && F64.lt f.abs ArrOp.F1e30) with c | c
-    · have c' := c
-      simp only [Bool.and_eq_true] at c'
-      simp only [Option.filter_some, c]
-      simp [← h128, to_i128_eq_trunc f c'.2]
-    · simp only [Option.filter_some, c]
-      simp
+/-- the case analysis of the model's `asInt` on one operand, as the facts the final `simp` needs: for a float, whether it is
+an integer of moderate size, and then that `as i128` (behind the name `g`) is exact on it -/
+syntax "number_eq_fin" : tactic
+macro_rules
+  | `(tactic| number_eq_fin) => `(tactic|
+      simp [rs, Num.asU64, Num.asI64, Num.toF64, ArrOp.asInt, Option.filter_some, *])
 
+/- The helper `as_int` (nested in `number_eq`, or hoisted to the top level under another name, or written with early
+`return`s instead of `or_else` chains) is unfolded in place by `unfold_gen_aux`, which finds it without being told its name.
+Then: the literal `1e30` and the test `fract() == 0.0` are folded to the model's terms BEFORE the library calls are unfolded,
+`as i128` is hidden behind a name, and the model's own case analysis is made on both operands (spelling of the number; for a
+float, whether `asInt` accepts it); every case is closed by the same `simp`. -/
 theorem number_eq (a b : Num) : Gen.number_eq a b = ArrOp.numberEq a b := by
   unfold Gen.number_eq ArrOp.numberEq
-  rw [number_eq_as_int, number_eq_as_int]
-  cases ArrOp.asInt a <;> cases ArrOp.asInt b <;> simp [rs]
+  try unfold_gen_aux
+  try simp only [lit1e30, fract_eq_zero]
+  generalize h128 : Rs.to_i128 = g
+  have hg := i128_exact g h128
+  clear h128
+  cases a with
+  | pos x =>
+      cases b with
+      | pos y => number_eq_fin
+      | neg y => number_eq_fin
+      | flt y =>
+          by_cases cy : (y.fractIsZero && F64.lt y.abs ArrOp.F1e30) = true
+          · have gy := hg y cy; number_eq_fin
+          · number_eq_fin
+  | neg x =>
+      cases b with
+      | pos y => number_eq_fin
+      | neg y => number_eq_fin
+      | flt y =>
+          by_cases cy : (y.fractIsZero && F64.lt y.abs ArrOp.F1e30) = true
+          · have gy := hg y cy; number_eq_fin
+          · number_eq_fin
+  | flt x =>
+      by_cases cx : (x.fractIsZero && F64.lt x.abs ArrOp.F1e30) = true
+      · have gx := hg x cx
+        cases b with
+        | pos y => number_eq_fin
+        | neg y => number_eq_fin
+        | flt y =>
+            by_cases cy : (y.fractIsZero && F64.lt y.abs ArrOp.F1e30) = true
+            · have gy := hg y cy; number_eq_fin
+            · number_eq_fin
+      · cases b with
+        | pos y => number_eq_fin
+        | neg y => number_eq_fin
+        | flt y =>
+            by_cases cy : (y.fractIsZero && F64.lt y.abs ArrOp.F1e30) = true
+            · have gy := hg y cy; number_eq_fin
+            · number_eq_fin
 
 end JL.Tie
